@@ -7,7 +7,7 @@ from __future__ import annotations
 import z3
 from .types import (T, INT, BOOL, STR, CPS, FLAGS, TUnint, TOpt, TSeq, TTup, TUnion, TMap, TRec, V, VNone, VPy, VObj,
                     ObjType, const_value)
-from .sym import Unsupported
+from .sym import Unsupported, fresh
 from .types import z3_string_value
 
 
@@ -115,6 +115,15 @@ CSSMATCH = ObjType('CSSMatch',
                    cls_qual='soupsieve.css_match.CSSMatch')
 
 
+# The parser's working compound (css_parser._Selector): every field the small parse_* methods touch.  `relations` (a list of other working
+# compounds) is not modelled: a function that touches it is outside the accepted subset.
+PSEL = ObjType('_Selector', immut=dict(),
+               mut=dict(tag=TOpt(SELTAG), ids=TSeq(STR), classes=TSeq(STR), attributes=TSeq(SELATTR), nth=TSeq(SELNTH), selectors=TSeq(SELLIST),
+                        rel_type=TOpt(STR), contains=TSeq(SELCONTAINS), lang=TSeq(SELLANG), flags=INT, no_match=BOOL),
+               cls_qual='soupsieve.css_parser._Selector')
+CSSPARSER = ObjType('CSSParser', immut=dict(pattern=STR, flags=INT, debug=BOOL, quirks=BOOL), mut=dict(), cls_qual='soupsieve.css_parser.CSSParser')
+
+
 def install(world):
     import sys
     ct = world.module('soupsieve.css_types')
@@ -154,6 +163,39 @@ def install(world):
         world.add_prim(nm, mk1(fn, rt), getattr(VT, nm))
 
     import spec.vocab_ir as VI
+    import inspect as _inspect
+
+    # ---- construction of IR values: a fresh value of the record sort whose fields are the constructor's arguments (the classes are
+    # plain immutable records: Immutable.__init__ stores every keyword under its slot; C15's structural obligations check that)
+    def ir_construct(eng, base, attr, args, kwargs, st, node, recv_node):
+        if attr != '__new__' or not (isinstance(base, VPy) and isinstance(base.obj, tuple) and base.obj[0] == 'class'):
+            return NotImplemented
+        cname = base.obj[1].rsplit('.', 1)[-1]
+        if not base.obj[1].startswith('soupsieve.css_types.') or cname not in IR_FIELDS:
+            return NotImplemented
+        rec, fields = IR_FIELDS[cname]
+        cls = getattr(ct, cname)
+        params = [p for p in _inspect.signature(cls.__init__).parameters.values()][1:]
+        bound = {}
+        pos = list(args)
+        for p in params:
+            if pos:
+                bound[p.name] = pos.pop(0)
+            elif p.name in kwargs:
+                bound[p.name] = kwargs[p.name]
+            elif p.default is not _inspect.Parameter.empty:
+                bound[p.name] = const_value(p.default)
+            else:
+                raise Unsupported(f'{cname}(): missing argument {p.name}', node)
+        if set(bound) != set(fields):
+            raise Unsupported(f'{cname}(): constructor parameters {sorted(bound)} are not its fields {sorted(fields)}', node)
+        v = fresh(rec, cname)
+        for f, t in fields.items():
+            st.pc.append(rec.get(v.term, f) == eng.coerce(bound[f], t, node).term)
+        if rec.none is not None:
+            st.pc.append(v.term != rec.none)
+        return v
+    world.method_rules.append(ir_construct)
 
     def p_sel_is_null(eng, args, st, node):
         return V(BOOL, sel_is_null(eng.coerce(args[0], SEL, node).term))
@@ -183,6 +225,27 @@ def install(world):
         return p
     world.add_prim('unesc_plain', _mk_unesc('RE_CSS_ESC'), VT.unesc_plain)
     world.add_prim('unesc_string', _mk_unesc('RE_CSS_STR_ESC'), VT.unesc_string)
+
+    def _rv():
+        import soupsieve.css_parser as cp
+        pid, info = world.rx.pid(cp.RE_VALUES)
+        return pid, info
+
+    def p_rv_starts(eng, args, st, node):
+        return V(TSeq(INT), world.rx.starts(z3.IntVal(_rv()[0]), eng.coerce(args[0], STR, node).term))
+    world.add_prim('rv_starts', p_rv_starts, VT.rv_starts)
+
+    def _mk_rv_group(gname):
+        def p(eng, args, st, node):
+            pid, info = _rv()
+            s_, p_ = eng.coerce(args[0], STR, node).term, eng.coerce(args[1], INT, node).term
+            g = info.group_id(gname)
+            gt = world.rx.grp(z3.IntVal(pid), z3.IntVal(g), s_, p_)
+            ht = world.rx.has(z3.IntVal(pid), z3.IntVal(g), s_, p_)
+            return V(OPT_STR, z3.If(ht, OPT_STR.some(gt), OPT_STR.none()))
+        return p
+    world.add_prim('rv_split', _mk_rv_group('split'), VT.rv_split)
+    world.add_prim('rv_value', _mk_rv_group('value'), VT.rv_value)
 
     def _ls_pid():
         import soupsieve.util as su
@@ -310,6 +373,15 @@ def install(world):
             if cs is not None and not eng.spec_mode:
                 eng.oblige(cs, 'str-node', is_navstr(v.term), 'page element used as a string is a NavigableString')
             return V(STR, text(v.term))
+        # a module-level IR constant (the pre-compiled CSS_* lists): an uninterpreted constant of the record sort, one per object
+        if isinstance(v, VPy) and isinstance(t, TRec):
+            for cname, (rec, _) in IR_FIELDS.items():
+                if rec == t and isinstance(v.obj, getattr(ct, cname)):
+                    key = id(v.obj)
+                    consts = world.__dict__.setdefault('_ir_consts', {})
+                    if key not in consts:
+                        consts[key] = (v.obj, z3.Const(f'const.{v.qual or cname}.{len(consts)}', t.sort()))
+                    return V(t, consts[key][1])
         return None
     world.coerce_hook = coerce_hook
 
